@@ -202,6 +202,20 @@ def oracle(case, impl, regs, everything_names):
     req = [n for n, _ in rec]
     if len(prof) != len(everything_names) or [p[0] for p in prof] != everything_names:
         return [("ingested_profile_names_differ", {"profile": prof})]
+    if sel == 2 and custom and all(isinstance(x, (list, tuple)) and len(x) == 2 and isinstance(x[0], str) for x in custom):
+        # a profile FILE says: entries in the order of everything.json, matched forward; an entry of everything.json that
+        # the file does not list at its turn is DISABLED; a listed entry carries its flag
+        want, j, exp = [(n, bool(f)) for n, f in custom], 0, []
+        for n in everything_names:
+            if j < len(want) and want[j][0] == n:
+                exp.append([n, want[j][1]])
+                j += 1
+            else:
+                exp.append([n, False])
+        if [list(x) for x in prof] != exp:
+            k = next(i for i in range(len(exp)) if list(prof[i]) != exp[i])
+            return [("ingested_profile_differs_from_the_profile_file",
+                     {"expected": exp[k], "observed": list(prof[k]), "index": k})]
     if sel in (0, 1):
         # "under the shipped default profile": without -P the profile in force is the shipped one the command line selects
         # (default.json, or torch_minimal.json with --tb) - read here straight from the file, whatever ran before
